@@ -6,9 +6,10 @@ Open Scope Z_scope.
 
 Section BySched.
 Variable mx : Z.
+Variable kp : Z.
 
 Lemma csusp_B : forall fuel tnt x d acc t b,
-  J mx tnt x d None t -> quiet_off t -> G mx x None -> pw_ts x = [] -> BI (pw_workers x) b ->
+  J mx kp tnt x d None t -> quiet_off t -> G mx x None -> pw_ts x = [] -> BI (pw_workers x) b ->
   exists x' d' evs, csusp fuel x d acc = COk pw x' d' (acc ++ evs) /\ BI (pw_workers x') (fold_left by_ev evs b).
 Proof.
   induction fuel as [|f IH]; intros tnt x d acc t b HJ Hq HG Hts HB.
@@ -18,16 +19,16 @@ Proof.
     destruct (pw_clock x <? ts) eqn:Ecl.
     { exists x, d, []. rewrite app_nil_r. auto. }
     pose proof (heap_min_In _ _ Emin) as Hin.
-    destruct (J_open_susp mx tnt x d t ts i HJ Hin) as (k & y & Hk & Est & Hl & Hp & HJ1).
+    destruct (J_open_susp mx kp tnt x d t ts i HJ Hin) as (k & y & Hk & Est & Hl & Hp & HJ1).
     unfold co_ready, k_state. rewrite Hk. cbn [option_map]. rewrite Est. cbn [tr_ready].
     assert (ts <=? pw_clock x = true) as -> by lia.
     rewrite (k_change_ready x i k Hk). rewrite Est.
     set (x1 := upd_worker x i (with_st k Ready)). set (e := EL 0 i (CbChanged Ready) (Suspend y ts)).
-    assert (J mx tnt x1 (d_rm_susp d (ts, i)) (Some i) (pev t e)) as HJ2.
+    assert (J mx kp tnt x1 (d_rm_susp d (ts, i)) (Some i) (pev t e)) as HJ2.
     { unfold x1, e. rewrite <- Est. apply J_set_live; [exact HJ1 | exact Hk | exact Hl | reflexivity]. }
     assert (get_worker x1 i = Some (with_st k Ready)) as Hk1.
     { unfold x1. apply get_worker_upd_worker_same. eapply get_worker_lt, Hk. }
-    assert (J mx tnt (k_push 0 x1 i) (d_rm_susp d (ts, i)) None (pev t e)) as HJ3.
+    assert (J mx kp tnt (k_push 0 x1 i) (d_rm_susp d (ts, i)) None (pev t e)) as HJ3.
     { eapply J_close_push; [exact HJ2 | exact Hk1 | reflexivity | eapply parked_facts_ready; eassumption | left; reflexivity]. }
     destruct (IH tnt (k_push 0 x1 i) (d_rm_susp d (ts, i)) (acc ++ [e]) (pev t e) b HJ3)
       as (x' & d' & evs & Ec & HB').
@@ -41,7 +42,7 @@ Proof.
 Qed.
 
 Lemma csys_B : forall fuel tnt x d acc t b,
-  J mx tnt x d None t -> quiet_off t -> G mx x None -> pw_ts x = [] -> BI (pw_workers x) b ->
+  J mx kp tnt x d None t -> quiet_off t -> G mx x None -> pw_ts x = [] -> BI (pw_workers x) b ->
   exists x' d' evs, csys fuel x d acc = COk pw x' d' (acc ++ evs) /\ BI (pw_workers x') (fold_left by_ev evs b).
 Proof.
   induction fuel as [|f IH]; intros tnt x d acc t b HJ Hq HG Hts HB.
@@ -51,15 +52,15 @@ Proof.
     destruct (pw_clock x <? ts) eqn:Ecl.
     { exists x, d, []. rewrite app_nil_r. auto. }
     pose proof (heap_min_In _ _ Emin) as Hin.
-    destruct (J_open_sys mx tnt x d t ts i HJ Hin) as (k & y & n & Hk & Est & Hl & Hp & Hmap & HJ1).
+    destruct (J_open_sys mx kp tnt x d t ts i HJ Hin) as (k & y & n & Hk & Est & Hl & Hp & Hmap & HJ1).
     assert (Sched.mem_nat i (sd_syscall d) = true) as -> by (apply mem_nat_In, Hmap).
     unfold k_state. rewrite Hk. cbn [option_map]. rewrite Est.
-    destruct (J_k_change mx tnt x (d_rm_sys d (ts, i)) i t k (Syscall y n STimeout) HJ1 Hq Hk Hl ltac:(discriminate))
+    destruct (J_k_change mx kp tnt x (d_rm_sys d (ts, i)) i t k (Syscall y n STimeout) HJ1 Hq Hk Hl ltac:(discriminate))
       as (x1 & Ekc & HJ2 & Hm2 & Hk2 & HG2a & _ & _).
-    pose proof (k_change_B _ _ _ _ _ b (jp_pools _ _ _ (j_p _ _ _ _ _ _ _ HJ1)) (jp_cur _ _ _ (j_p _ _ _ _ _ _ _ HJ1)) Ekc ltac:(discriminate) HB) as HB1.
+    pose proof (k_change_B _ _ _ _ _ b (jp_pools _ _ _ _ (j_p _ _ _ _ _ _ _ _ HJ1)) (jp_cur _ _ _ _ (j_p _ _ _ _ _ _ _ _ HJ1)) Ekc ltac:(discriminate) HB) as HB1.
     rewrite Ekc. rewrite Est in HJ2, HB1 |- *. set (e := EL 0 i (CbChanged (Syscall y n STimeout)) (Syscall y n (SSuspend ts))) in *.
     destruct Hm2 as [M1 M2 M3 M4 M5 M6].
-    assert (J mx tnt (k_push 0 x1 i) (d_rm_sys d (ts, i)) None (pev t e)) as HJ3.
+    assert (J mx kp tnt (k_push 0 x1 i) (d_rm_sys d (ts, i)) None (pev t e)) as HJ3.
     { eapply J_close_push; [exact HJ2 | exact Hk2 | reflexivity | eapply parked_facts_timeout; eassumption | right; right; exists y, n; reflexivity]. }
     destruct (IH tnt (k_push 0 x1 i) (d_rm_sys d (ts, i)) (acc ++ [e]) (pev t e) (fold_left by_ev [e] b) HJ3)
       as (x' & d' & evs & Ec & HB').
@@ -71,11 +72,11 @@ Proof.
 Qed.
 
 Lemma cready_B tnt x d acc t b :
-  J mx tnt x d None t -> quiet_off t -> G mx x None -> pw_ts x = [] -> BI (pw_workers x) b ->
+  J mx kp tnt x d None t -> quiet_off t -> G mx x None -> pw_ts x = [] -> BI (pw_workers x) b ->
   exists x' d' evs, cready x d acc = COk pw x' d' (acc ++ evs) /\ BI (pw_workers x') (fold_left by_ev evs b).
 Proof.
   intros HJ Hq HG Hts HB. rewrite cready_eq.
-  destruct (csusp_J mx (S (length (sd_suspend d))) tnt x d acc t HJ Hq HG Hts) as (x1 & d1 & e1 & E1 & HJ1 & HG1 & Hts1 & Ec1 & F1 & P1).
+  destruct (csusp_J mx kp (S (length (sd_suspend d))) tnt x d acc t HJ Hq HG Hts) as (x1 & d1 & e1 & E1 & HJ1 & HG1 & Hts1 & Ec1 & F1 & P1).
   destruct (csusp_B (S (length (sd_suspend d))) tnt x d acc t b HJ Hq HG Hts HB) as (x1' & d1' & e1' & E1' & HB1).
   rewrite E1 in E1'. injection E1' as <- <- E1'. apply app_inv_head in E1'. subst e1'.
   rewrite E1.
@@ -85,23 +86,22 @@ Proof.
 Qed.
 
 Lemma drop_B tnt x d w t k b x3 e :
-  J mx tnt x d (Some w) t -> get_worker x w = Some k -> live k = true -> In w (pw_cancel_cos x) ->
+  J mx kp tnt x d (Some w) t -> get_worker x w = Some k -> live k = true -> In w (pw_cancel_cos x) ->
   k_change (k_uncancel x w) w Cancelled = (x3, [e]) -> e = EL 0 w (CbChanged Cancelled) (k_st k) ->
   BI (pw_workers x) b -> BR t b -> BI (pw_workers x3) (by_ev b e).
 Proof.
   intros HJ Hk Hl Hin Ekc -> HB HR.
-  pose proof (k_change_tids (k_uncancel x w) w Cancelled x3 _ (jp_pools _ _ _ (j_p _ _ _ _ _ _ _ HJ)) (jp_cur _ _ _ (j_p _ _ _ _ _ _ _ HJ)) Ekc) as Ht.
+  pose proof (k_change_tids (k_uncancel x w) w Cancelled x3 _ (jp_pools _ _ _ _ (j_p _ _ _ _ _ _ _ _ HJ)) (jp_cur _ _ _ _ (j_p _ _ _ _ _ _ _ _ HJ)) Ekc) as Ht.
   change (pw_workers (k_uncancel x w)) with (pw_workers x) in Ht.
   eapply BI_cancelled; [exact HB | exact Ht|].
   intros i Hi. destruct (bi_hold _ _ HB w i Hi) as (k' & rest & Hk' & Htask).
   unfold get_worker in Hk. rewrite Hk in Hk'. injection Hk' as <-.
-  apply HR. eapply (jt_tf _ _ _ _ _ _ _ _ (j_t _ _ _ _ _ _ _ HJ)); eassumption.
+  apply HR. eapply (jt_tf _ _ _ _ _ _ _ _ (j_t _ _ _ _ _ _ _ _ HJ)); eassumption.
 Qed.
 
 Definition dsched_okB (b : bytrk) (acc : list ev) (res : pw * sdata * pass_res * list ev) : Prop :=
   let '(x', d', r, acc') := res in
-  exists evs, acc' = acc ++ evs /\
-    match r with PassOk _ _ => BI (pw_workers x') (fold_left by_ev evs b) | _ => True end.
+  exists evs, acc' = acc ++ evs /\ BI (pw_workers x') (fold_left by_ev evs b).
 
 Lemma dsched_okB_chain b acc e res : dsched_okB (fold_left by_ev e b) (acc ++ e) res -> dsched_okB b acc res.
 Proof.
@@ -110,29 +110,29 @@ Proof.
 Qed.
 
 Lemma dsched_B : forall fuel tnt x d deadline results acc t b,
-  J mx tnt x d None t -> quiet_off t -> G mx x None -> pw_ts x = [] -> BI (pw_workers x) b -> BR t b ->
+  J mx kp tnt x d None t -> quiet_off t -> G mx x None -> pw_ts x = [] -> BI (pw_workers x) b -> BR t b ->
   dsched_okB b acc (dsched fuel x d deadline results acc).
 Proof.
   induction fuel as [|f IH]; intros tnt x d deadline results acc t b HJ Hq HG Hts HB HR.
   - cbn [dsched do_schedule dsched_okB]. exists []. rewrite app_nil_r. auto.
   - rewrite dsched_S. cbv zeta. destruct (sat_sub deadline (pw_clock x) =? 0) eqn:Elft.
     { cbn [dsched_okB]. exists []. rewrite app_nil_r. cbn [fold_left]. auto. }
-    destruct (cready_J mx tnt x d acc t HJ Hq HG Hts) as (x1 & d1 & e1 & Ecr & HJ1 & HG1 & Hts1 & Ecl1 & F1 & F2 & P1).
+    destruct (cready_J mx kp tnt x d acc t HJ Hq HG Hts) as (x1 & d1 & e1 & Ecr & HJ1 & HG1 & Hts1 & Ecl1 & F1 & F2 & P1).
     destruct (cready_B tnt x d acc t b HJ Hq HG Hts HB) as (x1' & d1' & e1' & Ecr' & HB1).
     rewrite Ecr in Ecr'. injection Ecr' as <- <- Ecr'. apply app_inv_head in Ecr'. subst e1'.
     rewrite Ecr. apply (dsched_okB_chain b acc e1). set (t1 := fold_left pev e1 t) in *. set (b1 := fold_left by_ev e1 b) in *.
     assert (quiet_off t1) as Hq1 by (apply quiet_off_fold, Hq).
     assert (BR t1 b1) as HR1 by (apply BR_fold, HR).
-    unfold k_pop. pose proof (jq_c _ _ (j_q _ _ _ _ _ _ _ HJ1)) as HQc.
+    unfold k_pop. pose proof (jq_c _ _ (j_q _ _ _ _ _ _ _ _ HJ1)) as HQc.
     destruct (lpop (pw_cq x1) 0 0) as [q r] eqn:Epop.
     destruct (Q1_lpop_cases _ _ _ _ HQc Epop) as [HQ' [(z & -> & Hcnt)|(-> & Hnil & Hnil')]].
-    + destruct (J_open_cq mx tnt x1 d1 t1 q z HJ1 HQ' Hcnt) as (w & k & -> & Hk & Hl & Hp & Hres & HJ2).
+    + destruct (J_open_cq mx kp tnt x1 d1 t1 q z HJ1 HQ' Hcnt) as (w & k & -> & Hk & Hl & Hp & Hres & HJ2).
       rewrite Nat2Z.id. set (x2 := set_cq x1 q) in *.
       assert (get_worker x2 w = Some k) as Hk2 by exact Hk.
       assert (BI (pw_workers x2) b1) as HB2 by exact HB1.
       unfold k_cancelled. destruct (Sched.mem_nat w (pw_cancel_cos x2)) eqn:Ecc.
       * apply mem_nat_In in Ecc.
-        destruct (J_drop mx tnt x2 d1 w t1 k HJ2 Hq1 Hk2 Hl Ecc) as (x3 & Ekc & HJ3 & HG3 & Hts3 & Ecl3 & Hr3 & Hc3).
+        destruct (J_drop mx kp tnt x2 d1 w t1 k HJ2 Hq1 Hk2 Hl Ecc) as (x3 & Ekc & HJ3 & HG3 & Hts3 & Ecl3 & Hr3 & Hc3).
         pose proof (drop_B tnt x2 d1 w t1 k b1 x3 _ HJ2 Hk2 Hl Ecc Ekc eq_refl HB2 HR1) as HB3.
         rewrite Ekc. apply (dsched_okB_chain b1 (acc ++ e1) [EL 0 w (CbChanged Cancelled) (k_st k)]).
         eapply (IH tnt x3 _ deadline _ _ (fold_left pev [EL 0 w (CbChanged Cancelled) (k_st k)] t1)).
@@ -146,41 +146,50 @@ Proof.
         assert (parked_ok x2 w) as Hpk.
         { destruct Hp as (Hd & Ht & m & Hm & Hb). exists k, m. repeat (split; [assumption|]). exact Hb. }
         assert (G mx x2 (Some w)) as HG2 by (apply G_None_any, G_set_cq, HG1).
-        destruct (k_resume_J mx tnt x2 d1 w t1 HJ2 Hq1 HG2 Hpk Ecc Hts1)
-          as (x3 & r & e & Ekr & (HJ3 & HG3 & Hts3 & Ecc3 & (k' & Hk' & -> & Hpl) & Hr3 & Hc3)).
-        destruct (k_resume_B mx tnt x2 d1 w t1 b1 HJ2 Hq1 HG2 Hpk Ecc Hts1 HB2) as (x3' & r' & e' & Ekr' & HB3).
+        destruct (k_resume_J mx kp tnt x2 d1 w t1 HJ2 Hq1 HG2 Hpk Ecc Hts1)
+          as (x3 & r & e & Ekr & Hres3).
+        destruct (k_resume_B mx kp tnt x2 d1 w t1 b1 HJ2 Hq1 HG2 Hpk Ecc Hts1 HB2) as (x3' & r' & e' & Ekr' & HB3).
         rewrite Ekr in Ekr'. injection Ekr' as <- _ <-.
+        destruct Hres3 as [(HJ3 & HG3 & Hts3 & Ecc3 & (k' & Hk' & -> & Hpl) & Hr3 & Hc3)|(-> & _)].
+        2:{ rewrite Ekr. cbn [dsched_okB]. exists e. split; [reflexivity | exact HB3]. }
         rewrite Ekr. apply (dsched_okB_chain b1 (acc ++ e1) e).
         assert (quiet_off (fold_left pev e t1)) as Hq3 by (apply quiet_off_fold, Hq1).
         assert (BR (fold_left pev e t1) (fold_left by_ev e b1)) as HR3 by (apply BR_fold, HR1).
-        destruct Hpl as [(Hl' & v & Est)|(Hl' & Hd' & Ht' & i & rest & Htask & Hc)].
+        destruct Hpl as [(Hl' & v & Est)|[(Hl' & Hd' & Ht' & i & rest & Htask & Hc)|(Hl' & Hd' & Ht' & Htask & Est)]].
+        3:{ rewrite Est in *.
+            assert (parked_facts k') as Hp'.
+            { split; [exact Hd'|]. split; [exact Ht'|]. exists MRun. rewrite Est, Htask. cbn [pmode]. auto. }
+            pose proof (jp_keep _ _ _ _ (j_p _ _ _ _ _ _ _ _ HJ3)) as (_ & Hc0 & _).
+            assert (pw_clock x3 <? 0 = false) as -> by lia.
+            eapply IH; [|exact Hq3 | apply G_push, HG3 | exact Hts3 | exact HB3 | exact HR3].
+            eapply (J_close_push mx kp tnt x3 d1 w _ k' HJ3 Hk' Hl' Hp'). right. left. exists 0, 0. split; [exact Est | lia]. }
         -- rewrite Est in *. eapply IH; [|exact Hq3 | exact HG3 | exact Hts3 | exact HB3 | exact HR3].
-           eapply (J_close_dead mx tnt x3 d1 d1 w _ _ HJ3 Hk' Hl'); reflexivity.
+           eapply (J_close_dead mx kp tnt x3 d1 d1 w _ _ HJ3 Hk' Hl'); reflexivity.
         -- pose proof (placed_parked k' i rest Hd' Ht' Htask Hc) as Hp'.
            destruct Hc as [(ts & Est & Hb)|(y & n & ts & Est & Hb)]; rewrite Est in *.
            ++ destruct (pw_clock x3 <? ts) eqn:Ects.
               ** eapply IH; [|exact Hq3 | exact HG3 | exact Hts3 | exact HB3 | exact HR3].
-                 eapply (J_close_susp mx tnt x3 d1 w _ k' 0 ts HJ3 Hk' Est Hp').
+                 eapply (J_close_susp mx kp tnt x3 d1 w _ k' 0 ts HJ3 Hk' Est Hp').
               ** eapply IH; [|exact Hq3 | apply G_push, HG3 | exact Hts3 | exact HB3 | exact HR3].
-                 eapply (J_close_push mx tnt x3 d1 w _ k' HJ3 Hk' Hl' Hp'). right. left. exists 0, ts. split; [exact Est | lia].
+                 eapply (J_close_push mx kp tnt x3 d1 w _ k' HJ3 Hk' Hl' Hp'). right. left. exists 0, ts. split; [exact Est | lia].
            ++ eapply IH; [|exact Hq3 | exact HG3 | exact Hts3 | exact HB3 | exact HR3].
-              eapply (J_close_sys mx tnt x3 d1 w _ k' y n ts HJ3 Hk' Est Hp').
+              eapply (J_close_sys mx kp tnt x3 d1 w _ k' y n ts HJ3 Hk' Est Hp').
     + cbn [dsched_okB]. exists []. rewrite app_nil_r. cbn [fold_left]. split; [reflexivity|]. exact HB1.
 Qed.
 
 (** the whole pass *)
 Definition ppass_okB (b : bytrk) (res : pw * pres * list ev) : Prop :=
   let '(x', r, e) := res in
-  match r with PLeft _ | PErrStopped => BI (pw_workers x') (fold_left by_ev e b) | _ => True end.
+  BI (pw_workers x') (fold_left by_ev e b).
 
 Lemma ppass_B tnt x t b deadline :
-  Jop mx tnt x t -> quiet_off t -> BI (pw_workers x) b -> BR t b -> ppass_okB b (ppass x 0 deadline).
+  Jop mx kp tnt x t -> quiet_off t -> BI (pw_workers x) b -> BR t b -> ppass_okB b (ppass x 0 deadline).
 Proof.
   intros [HJ Hts] Hq HB HR. rewrite ppass_eq.
   set (x1 := set_cur (try_grow x 0) 0).
-  pose proof (jp_pools _ _ _ (j_p _ _ _ _ _ _ _ HJ)) as Hpools.
-  destruct (J_try_grow mx tnt x _ None t HJ Hq) as [HJg HGg].
-  assert (J mx tnt x1 (p_sd (get_pool x1 0)) None t) as HJ1.
+  pose proof (jp_pools _ _ _ _ (j_p _ _ _ _ _ _ _ _ HJ)) as Hpools.
+  destruct (J_try_grow mx kp tnt x _ None t HJ Hq) as [HJg HGg].
+  assert (J mx kp tnt x1 (p_sd (get_pool x1 0)) None t) as HJ1.
   { unfold x1. autorewrite with pw. rewrite (p_sd_try_grow x Hpools). apply J_set_cur, HJg. }
   assert (G mx x1 None) as HG1.
   { unfold x1. eapply (G_frame mx (try_grow x 0)); [reflexivity | reflexivity | reflexivity | exact HGg]. }
@@ -192,8 +201,7 @@ Proof.
   { pose proof (dsched_B (pass_fuel_p x1) tnt x1 _ deadline [] [] t b HJ1 Hq HG1 Hts1 HB1 HR) as Hok.
     destruct (dsched (pass_fuel_p x1) x1 (p_sd (get_pool x1 0)) deadline [] []) as [[[x2 d2] r] e].
     cbn [dsched_okB] in Hok. destruct Hok as (evs & Ee & Hok). cbn [app] in Ee. subst e. unfold ppass_tail. cbv zeta.
-    destruct (pw_spin _); [exact I|]. destruct r; cbn [ppass_okB]; try exact I.
-    autorewrite with pw. exact Hok. }
+    destruct (pw_spin _); [|destruct r]; cbn [ppass_okB]; autorewrite with pw; exact Hok. }
   destruct (p_state (get_pool x 0)) eqn:Est; [exact Htail | exact Htail|]. cbn [ppass_okB fold_left]. exact HB.
 Qed.
 
